@@ -94,7 +94,14 @@ theorem pubkey_eq_dG (C : PointOpsCorrect ops G den xc valid) (d : ℤ) :
     (¬ (1 ≤ d ∧ d < ops.order) → fromSecretExponent ops d = .error .malformedPoint) :=
   fromSecretExponent_spec C d
 
-/-- end to end, as observed at `SigningKey.sign_digest(digest, k=k, allow_truncate=True)`: the encoder is applied
+/-- **`dg ≠ []` is necessary** in the truncation and end-to-end statements: on an empty digest `sign_digest` (like
+`verify_digest`) raises `ValueError` from `int(b"", 16)`; the property quantifies over non-empty digests. -/
+theorem sign_digest_empty_digest {β : Type} (ops : PointOps P) (d : ℤ) (k : Option ℤ) (rand : ℤ → Res ℤ)
+    (enc : ℤ → ℤ → ℤ → Res β) (allow : Bool) : signDigest ops d [] k rand enc allow = .error .valueError := by
+  unfold signDigest
+  rw [truncate_empty]; rfl
+
+/-- end to end (NON-EMPTY digest, hypothesis `hne`), as observed at `SigningKey.sign_digest(digest, k=k, allow_truncate=True)`: the encoder is applied
 to the standard `(r, s)` of the leftmost-bits integer, or `RSZeroError` is raised -/
 theorem sign_digest_eq_standard {β : Type} (C : PointOpsCorrect ops G den xc valid) (d k : ℤ) (hk : 1 ≤ k ∧ k < ops.order)
     (dg : Bytes) (hne : dg ≠ []) (rand : ℤ → Res ℤ) (enc : ℤ → ℤ → ℤ → Res β) :
@@ -164,6 +171,29 @@ theorem pubkey_eq_dG_on_curve (c : Affine.Crv) (C : Ctx p a b) (M : OnCurve.Matc
     (¬ (1 ≤ d ∧ d < c.n) → fromSecretExponent (OnCurve.ops c) d = .error .malformedPoint) :=
   pubkey_eq_dG (OnCurve.pointOpsCorrect c C M) d
 
+/-- **the public key in coordinates**: what `x()`, `y()` of the verifying key's point return (and hence what
+`VerifyingKey.to_string()` serialises, C09) are the canonical affine coordinates — integers of `[0, p)` — of the group
+element `d • G` of Mathlib's curve group -/
+theorem pubkey_coordinates_on_curve (c : Affine.Crv) (C : Ctx p a b) (M : OnCurve.Matches c C) (d : ℤ)
+    (hd : 1 ≤ d ∧ d < c.n) :
+    ∃ A x y, fromSecretExponent (OnCurve.ops c) d = .ok A ∧ (OnCurve.ops c).xOf A = .ok x ∧ (OnCurve.ops c).yOf A = .ok y ∧
+      0 ≤ x ∧ x < p ∧ 0 ≤ y ∧ y < p ∧
+      ∃ hns : (Jac.shortW (a : ZMod p) (b : ZMod p)).toAffine.Nonsingular (x : ZMod p) (y : ZMod p),
+        d • C.G = WeierstrassCurve.Affine.Point.some _ _ hns := by
+  have PC := OnCurve.pointOpsCorrect c C M
+  obtain ⟨A, hA, vA, dA⟩ := (pubkey_eq_dG PC d).1 hd
+  have hne : OnCurve.den C A ≠ 0 := by
+    rw [dA]; intro h
+    have := (PC.smul_eq_zero_iff d).mp h
+    have := Int.le_of_dvd (by omega) this
+    have : (OnCurve.ops c).order = c.n := rfl
+    omega
+  rcases GroupInterface.result_cases (OnCurve.valid_rep vA) with ⟨_, h0⟩ | ⟨J, rfl, hJ, _⟩ | ⟨Af, rfl, _, _⟩
+  · exact absurd h0 hne
+  · obtain ⟨x, y, ex, ey, x0, x1, y0, y1, hns, hg⟩ := GroupInterface.xy hJ
+    exact ⟨_, x, y, hA, ex, ey, x0, x1, y0, y1, hns, by rw [← dA]; exact hg⟩
+  · exact absurd vA.1 (by simp [OnCurve.OrdInv])
+
 /-- non-vacuity: the hypotheses are satisfiable (toy curve y² = x³ + x + 6 over 𝔽₁₁, G = (2,7), n = 13) -/
 example : ∃ C : Ctx 11 1 6, OnCurve.Matches OnCurve.toyCrv C := OnCurve.toy_matches
 
@@ -222,5 +252,16 @@ theorem pubkey_eq_dG_legacy (c : Affine.Crv) (C : Ctx p a b) (M : OnCurve.Matche
 example : ∃ C : Ctx 11 1 6, OnCurve.MatchesL OnCurve.toyCrvL C := OnCurve.toy_matchesL
 
 end Legacy
+
+/-! ### evaluated on the model of the REAL point classes (closed instance, no hypothesis; kernel evaluation through
+`PointJacobi.__mul__` / `mul_add` / `x()` as written): toy curve y² = x³ + x + 6 over 𝔽₁₁, G = (2,7), n = 13,
+driver token `11,1,6,2,7,13,1,j`; secret d = 3, public point Q = 3G = (8,3) -/
+set_option maxRecDepth 4000 in
+example : fromSecretExponent (OnCurve.ops OnCurve.toyCrv) 3 = .ok (.jac ⟨OnCurve.crvOf OnCurve.toyCrv, 8, 3, 1, some 13, false⟩)
+    ∧ sign (OnCurve.ops OnCurve.toyCrv) 3 5 2 = .ok (5, 10)        -- 2G = (5,2): r = 5, s = 2⁻¹(5 + 5·3) = 7·20 mod 13 = 10
+    ∧ sign (OnCurve.ops OnCurve.toyCrv) 3 5 13 = .error .typeError  -- nonce ≡ 0: `None % n` (outside the property's domain)
+    ∧ signDigest (OnCurve.ops OnCurve.toyCrv) 3 [0x50] (some 2) (fun _ => .error .other) encDer true
+        = .ok [48, 6, 2, 1, 5, 2, 1, 10] := by                      -- digest 50: leftmost 4 bits = 5
+  decide +kernel
 
 end C03
